@@ -8,6 +8,7 @@ import (
 	"bytes"
 	"crypto/cipher"
 	"crypto/ed25519"
+	"crypto/sha512"
 	"fmt"
 	"math/big"
 	"testing"
@@ -354,7 +355,7 @@ func c08EdDSA(t *rapid.T, ev *evProp) {
 	}
 	// adversarial triple
 	L := ordEd25519
-	mut := rapid.SampledFrom([]string{"msg", "sigbitflip", "sigbitflip", "pubbitflip", "s+L", "s+kL", "R+torsion", "A+torsion", "smallorderA", "smallorderR", "noncanonicalR", "noncanonicalA", "otherkey", "zero-s"}).Draw(t, "mut")
+	mut := rapid.SampledFrom([]string{"msg", "sigbitflip", "sigbitflip", "pubbitflip", "s+L", "s+kL", "R+torsion", "A+torsion", "smallorderA", "smallorderR", "mixedkey-smallorderR", "mixedkey-smallorderR", "noncanonicalR", "noncanonicalA", "otherkey", "zero-s"}).Draw(t, "mut")
 	mpub, mmsg, msig := append([]byte(nil), pub...), msg, append([]byte(nil), sig...)
 	mustReject := true
 	c := modelEd25519
@@ -401,6 +402,39 @@ func c08EdDSA(t *rapid.T, ev *evProp) {
 		copy(msig[32:], bigToBytes(r.V, 32, true))
 	case "smallorderR":
 		copy(msig, mustHex(rapid.SampledFrom(edSmallOrderY).Draw(t, "so")))
+	case "mixedkey-smallorderR":
+		// a key of mixed order A = a*B + T (canonical, not of small order) and a small-order R for
+		// which the verification EQUATION holds: S = h*a, R = -h*T.  Only the small-order test on R
+		// stands between this triple and acceptance (crypto/ed25519, which has no such test, accepts).
+		a := genScalar(t, groupByName("ed25519"), "mk.a")
+		if a.V.Sign() == 0 {
+			a.V = big.NewInt(1)
+		}
+		TA := torsion("mk.T")
+		ap := c.Add(c.Mul(a.V, c.Base()), TA)
+		mpub = c.Encode(ap, 32)
+		t8, _, _ := c.Decode(mustHex(edSmallOrderY[3]))
+		idEnc := mustHex(edSmallOrderY[1])
+		found := false
+		for ctr := 0; ctr < 64 && !found; ctr++ {
+			m2 := append(append([]byte(nil), msg...), byte(ctr))
+			for k := 0; k < 8 && !found; k++ {
+				rp := c.Mul(big.NewInt(int64(k)), t8)
+				renc := c.Encode(rp, 32)
+				hh := sha512.Sum512(append(append(append([]byte(nil), renc...), mpub...), m2...))
+				h := new(big.Int).Mod(bytesToBig(hh[:], true), L)
+				if bytes.Equal(c.Encode(c.Add(rp, c.Mul(h, TA)), 32), idEnc) {
+					mmsg = m2
+					copy(msig, renc)
+					copy(msig[32:], bigToBytes(new(big.Int).Mod(new(big.Int).Mul(h, a.V), L), 32, true))
+					found = true
+				}
+			}
+		}
+		if !found {
+			mustReject = false // (2^-64) fall back to the honest triple
+			mpub, mmsg, msig = append([]byte(nil), pub...), msg, append([]byte(nil), sig...)
+		}
 	case "noncanonicalR":
 		copy(msig, mustHex(rapid.SampledFrom(edSmallOrderY[5:]).Draw(t, "nc")))
 		if rapid.Bool().Draw(t, "sgn") {
@@ -441,6 +475,29 @@ func c08EdDSA(t *rapid.T, ev *evProp) {
 			violationOrKnown(t, ev, "C04/eddsa/verify-panic", "Verify panicked on %s: %s\n%s", mut, pn, ctx)
 		} else if e2 == nil && !goOK {
 			violationOrKnown(t, ev, "C08/eddsa/accepts-more-than-stdlib", "eddsa.Verify accepts (%s) what crypto/ed25519 rejects\n pub=%x\n sig=%x\n%s", mut, mpub, msig, ctx)
+		}
+	}
+	// the same triple through the Schnorr verifiers of the Ed25519 suite (same equation, same hash,
+	// same canonicity and small-order rules)
+	edSuite := edwards25519.NewBlakeSHA256Ed25519()
+	for _, via := range []string{"VerifyWithChecks", "Verify"} {
+		var e3 error
+		ran := true
+		pn := safely(func() {
+			if via == "VerifyWithChecks" {
+				e3 = schnorr.VerifyWithChecks(edSuite, mpub, mmsg, msig)
+			} else if P := edSuite.Point(); P.UnmarshalBinary(mpub) == nil {
+				e3 = schnorr.Verify(edSuite, P, mmsg, msig)
+			} else {
+				ran = false
+			}
+		})
+		if pn != "" {
+			violationOrKnown(t, ev, "C04/schnorr/ed25519/verify-panic", "schnorr.%s panicked on %s: %s\n%s", via, mut, pn, ctx)
+		} else if ran && e3 == nil && !goOK {
+			violationOrKnown(t, ev, "C08/schnorr-ed25519/accepts-more-than-stdlib", "schnorr.%s accepts (%s) what crypto/ed25519 rejects\n pub=%x\n sig=%x\n%s", via, mut, mpub, msig, ctx)
+		} else if ran && e3 == nil && mustReject {
+			violationOrKnown(t, ev, "C08/schnorr-ed25519/forgery-accepted", "schnorr.%s accepts mutation %s\n pub=%x\n msg=%x\n sig=%x\n%s", via, mut, mpub, mmsg, msig, ctx)
 		}
 	}
 	ev.Case(true, ctx+" mut="+mut, "eddsa-mut:"+mut, fmt.Sprintf("eddsa-go-accepts:%v", goOK))
